@@ -30,7 +30,8 @@ describe(
     "is released; candidates are drawn only from not-submitted jobs; inside batch construction a job is appended only if not "
     "yet placed in this call and every placement is recorded; the remainder handed to the next batch of the same round is "
     "disjoint from the jobs just placed; batch identifiers are read-then-incremented and persisted; a queue entry is started "
-    "or queued, never both, and every started entry leaves the queue; a constructed batch is always handed off.",
+    "or queued, never both, and every started entry leaves the queue; a constructed batch is always handed off."
+    " Every file written for a batch (config, run script, job name, singularity wrapper) is named from that batch's own suffix / run script; the crashed-round marker is removed only after the persisted status update.",
     [
         "the scheduler runs a handed-off script once",
         "role exclusivity given the lock library is C10",
@@ -439,6 +440,55 @@ def c01_6(ctx, r):
     r.check(bool(st) and all(dominated_by(ctx, iujs, s2, st) for s2 in sj) and all(not guard_forms(ctx, iujs, n) for n in st), "JobStatus.batch_index is stored unconditionally before the job status is serialised", key_of(iujs, "store batch index"), iujs.loc(),
             "the next batch index is not stored (unconditionally, before _serialize_jobs): the next round restarts at a used index",
             "never reuses a batch identifier")
+    # every file written for a batch is named from the batch's own suffix / run script (a name shared by two batches is
+    # overwritten while the first batch is still queued: its HPC job then runs the other batch's jobs)
+    def _mentions(fn, expr, at, pred, depth=4):
+        """expr, or the unique definition of a local it reads (transitively), contains a node satisfying pred."""
+        seen, work = set(), [(expr, at)]
+        for _ in range(depth * 8):
+            if not work:
+                break
+            e, where = work.pop()
+            if any(pred(x) for x in ast.walk(e)):
+                return True
+            for x in ast.walk(e):
+                if isinstance(x, ast.Name) and x.id not in seen and x.id != "self":
+                    seen.add(x.id)
+                    ud = ctx.rd(fn).unique_def(where, x.id)
+                    if ud is not None and isinstance(ud[1], ast.AST):
+                        work.append((ud[1], ud[0]))
+        return False
+
+    is_suffix = lambda x: isinstance(x, ast.Name) and x.id == "suffix"
+    nfile = 0
+    for n in cfg.nodes:
+        for c in cfg.calls_at(n):
+            fname = ctx.src(c.func).split(".")[-1]
+            tgt = c.args[1] if fname == "dump_data" and len(c.args) > 1 else c.args[1] if fname == "_create_run_script" and len(c.args) > 1 else None
+            if tgt is None:
+                continue
+            nfile += 1
+            r.check(_mentions(mk, tgt, n, is_suffix), f"{fname}: the file name carries this batch's suffix", key_of(mk, f"{fname} target without the batch suffix"), mk.loc(c),
+                    f"`{ctx.src(tgt)}` does not depend on the batch suffix: two batches write the same file", "never reuses a batch identifier")
+        if n.kind == "stmt" and isinstance(n.ast, ast.Assign) and ctx.src(n.ast.targets[0]) == "name":
+            nfile += 1
+            r.check(_mentions(mk, n.ast.value, n, is_suffix), "the HPC job name carries this batch's suffix", key_of(mk, "job name without the batch suffix"), mk.loc(n.ast),
+                    f"`{ctx.src(n.ast)}`: two batches get the same job name, hence the same <name>.sh submission script", "never reuses a batch identifier")
+    if nfile < 3:
+        raise AnalysisError("C01.6", f"only {nfile} per-batch names recognised in _make_async_submitter (config file, run script, job name)")
+    sg = ctx.fn("AsyncHpcSubmitter._make_singularity_command", "C01.6")
+    cfgs = ctx.cfg(sg)
+    per_batch = lambda x: isinstance(x, ast.Attribute) and x.attr in ("name", "stem") and ctx.src(x.value) == "self._run_script" or isinstance(x, ast.Attribute) and ctx.src(x) == "self._name"
+    nw = 0
+    for n in cfgs.nodes:
+        for c in cfgs.calls_at(n):
+            if ctx.src(c.func).split(".")[-1] == "create_script" and c.args:
+                nw += 1
+                r.check(_mentions(sg, c.args[0], n, per_batch), "the singularity wrapper is named after this batch's run script", key_of(sg, "wrapper name not per batch"), sg.loc(c),
+                        f"the wrapper written by `{ctx.src(c)[:60]}` is not named from self._run_script.name / self._name: batches of one group share the file, and a queued HPC job later runs "
+                        "whatever batch wrote it last (its own jobs never start, another batch's jobs start twice)", "never starts a job's command more than once")
+    if nw != 1:
+        raise AnalysisError("C01.6", f"expected one create_script call in _make_singularity_command, found {nw}")
     # the hpc round always reaches the update when batches were made (C01.2 hop 4 covers submitted_jobs non-empty)
 
 
@@ -568,3 +618,17 @@ def c01_10(ctx, r):
     from .c10 import c10_1
 
     c10_1(ctx, r)
+
+
+@rule(P, "C01.11", "T2", "the crashed-round marker outlives the persisted status update (a failed status write cannot be followed by a silent re-placement)", min_obligations=2)
+def c01_11(ctx, r):
+    from .c11 import c11_3
+
+    c11_3(ctx, r)
+
+
+@rule(P, "C01.12", "T3+T6", "a job canceled by the submitter or on a node is never placed / started afterwards", min_obligations=4)
+def c01_12(ctx, r):
+    from .c04 import c04_5
+
+    c04_5(ctx, r)
